@@ -153,28 +153,33 @@ number class, and "whitespace in front" for `(` and `[`: everything an error-fre
 returns exactly `prog`, with no error and no continuation request, for every sufficiently large fuel.
 Both print modes of the property (`compact` = false/true with `allParens = false`) and the two all-parentheses modes.
 
-The heart is `RT.gp_node`: Pratt parsing inverts the printer's minimal-parenthesis rule (an operand is put in
+The heart is `RT.gpx_node`: Pratt parsing inverts the printer's minimal-parenthesis rule (an operand is put in
 parentheses iff its operator's precedence is below the context's `ExpressionPrecedence`; right operands are printed
 one level up), proved by induction on the tree over the generated precedence and registration tables.
 
-INSIDE the fragment: identifiers; integer, float, string and boolean literals; the seven prefix operators
-`! - + ++ -- ~ ^`; all 21 binary operators registered with parseInfixExpression (`= := || && : == != < <= > >= + - | ^ * % & << >> /`,
-hence slices `a[i:j]`); calls `f(a, b)`; index `a[i]` and `a.b` / `a.(e)` / `(1).b` (with the printer's parentheses around
-non-single-token and number operands of a dot); array literals; a program = a list of such expression statements
-(at least zero), in NORMAL mode none but the first starting with `-`, `+`, `^`, `++`, `--`; trees need NOT come from the
-parser (any nesting, e.g. `(a + b) * c`, `-(a * b)`, `(a = b)[c]`).
+INSIDE the fragment (`PrintTokens.fragN` / `fragS`, decidable, per print mode):
+  * expressions: identifiers; integer, float, string and boolean literals; `break` / `continue`; the seven prefix operators
+    `! - + ++ -- ~ ^`; postfix `x++` / `x--`; all 21 binary operators registered with parseInfixExpression
+    (`= := || && : == != < <= > >= + - | ^ * % & << >> /`, hence slices `a[i:j]`); calls `f(a, b)`; the builtins `len first rest
+    print println log error catch quote unquote del` with their argument lists; index `a[i]` and `a.b` / `a.(e)` / `(1).b` (with the
+    printer's parentheses around non-single-token and number operands of a dot); array literals; function literals
+    `func name(a, b, ..) { … }` (named or not, variadic or not); `for cond { … }`; `if cond { … }`, `… else { … }` and
+    `… else if …` chains;
+  * statement lists (a program, and every block): expression statements and `return e`; a bare `return` only as the last
+    statement; in NORMAL mode without all-parens no statement but the first of its list starts with `-`, `+`, `^`, `++`, `--`;
+  * trees need NOT come from the parser (any nesting, e.g. `(a + b) * c`, `-(a * b)`, `(a = b)[c]`, `if (if a {b}) {c}`).
 
-OUTSIDE (not covered): `return`, postfix `x++`, `if`/`for`, function literals and lambdas, builtins (`len(…)`, `print`…),
-map literals, macros, `break`/`continue`, `..`, comments, the open-ended slice `a[n:]`, blocks; line mode (EOL end marker).
+OUTSIDE (not covered): lambdas `x => e`, map literals, macros, `..` as an expression, the open-ended slice `a[n:]`, comments;
+line mode (EOL end marker).
 Recorded finding classes that show the FULL statement (`Statement`) is false of the code, all outside the fragment:
   * repeated-associative-operator-on-the-right (`a + (b + c)` printed `a + b + c`): excluded by `fragN` on `.infix`
     (`!sameAssociativeOperator`), see `outside_fragment_assoc`;
-  * statement-starts-with-prefix-operator (normal mode): excluded by `noAmbiguousStart`, see `outside_fragment_stmt`
+  * statement-starts-with-prefix-operator (normal mode): excluded by `fragS`, see `outside_fragment_stmt`
     (compact mode prints such a statement in parentheses and IS covered);
-  * comment-inside-expression, unclosed-block-comment-ending-in-star-slash, illegal-token-as-parameter: comments and
-    function parameters are not in the fragment.
+  * comment-inside-expression, unclosed-block-comment-ending-in-star-slash: comments are not in the fragment;
+  * illegal-token-as-parameter: `paramsOK` admits identifiers and `..` only.
 The link "lexing the printed bytes gives `progToks`" is not a theorem: it is checked on every case of the `printtokens`
-suite (real printer, real lexer; ~2·10^4 in-fragment programs per quick run, 4 modes each). -/
+suite (real printer, real lexer; ~2.4·10^4 in-fragment programs per quick run, 4 modes each). -/
 theorem roundtrip_partial (compact allParens : Bool) (prog : NList) (hfrag : fragProg compact allParens prog = true)
     (s : TokStream) (hs : s.toks.map key = progKeys compact allParens prog) :
     ∃ F, ∀ fuel, F ≤ fuel → parseProgram s fuel = .ok { program := prog, errors := 0, cont := false } :=
@@ -226,9 +231,36 @@ def exProg : NList :=
      (some (.infix ⟨.PLUS, [43]⟩ (some (.ident ⟨.IDENT, [97]⟩)) (some (.ident ⟨.IDENT, [98]⟩))))
      (some (.ident ⟨.IDENT, [99]⟩)))]
 
+/-- `func f(a, ..) { if a < 1 { return a } else if !a { x++ } else { break }; for a { print(a) }; return }` -/
+def exFunc : NList :=
+  [some (.func ⟨.FUNC, [102, 117, 110, 99]⟩ (some ⟨.IDENT, [102]⟩)
+    [some (.ident ⟨.IDENT, [97]⟩), some (.ident ⟨.DOTDOT, [46, 46]⟩)]
+    (some [
+      some (.ifE ⟨.IF, [105, 102]⟩ (some (.infix ⟨.LT, [60]⟩ (some (.ident ⟨.IDENT, [97]⟩)) (some (.intLit ⟨.INT, [49]⟩))))
+        (some [some (.ret ⟨.RETURN, [114, 101, 116, 117, 114, 110]⟩ (some (.ident ⟨.IDENT, [97]⟩)))])
+        (some [some (.ifE ⟨.IF, [105, 102]⟩ (some (.pre ⟨.BANG, [33]⟩ (some (.ident ⟨.IDENT, [97]⟩))))
+          (some [some (.post ⟨.INCR, [43, 43]⟩ ⟨.IDENT, [120]⟩)])
+          (some [some (.control ⟨.BREAK, [98, 114, 101, 97, 107]⟩)]))])),
+      some (.forE ⟨.FOR, [102, 111, 114]⟩ (some (.ident ⟨.IDENT, [97]⟩))
+        (some [some (.builtin ⟨.PRINT, [112, 114, 105, 110, 116]⟩ [some (.ident ⟨.IDENT, [97]⟩)])])),
+      some (.ret ⟨.RETURN, [114, 101, 116, 117, 114, 110]⟩ none)])
+    true false)]
+
 /-- the hypotheses are met by non-trivial programs: the expression is in the fragment in every mode … -/
 example : fragProg false false [some exTree] = true ∧ fragProg true false [some exTree] = true
-    ∧ fragProg false false exProg = true ∧ fragProg true true exProg = true := by decide
+    ∧ fragProg false false exProg = true ∧ fragProg true true exProg = true
+    ∧ fragProg false false exFunc = true ∧ fragProg true false exFunc = true := by decide
+
+/-- … so is a function with a variadic parameter, an `if` / `else if` / `else` chain, a loop and `return`s, rendered
+`func f ( a , .. ) { if a < 1 { return a } else if ! a { x ++ } else { break } for a { print ( a ) } return }` … -/
+example : (progToks false false exFunc).map (·.type) =
+    [.FUNC, .IDENT, .LPAREN, .IDENT, .COMMA, .DOTDOT, .RPAREN, .LBRACE,
+     .IF, .IDENT, .LT, .INT, .LBRACE, .RETURN, .IDENT, .RBRACE, .ELSE, .IF, .BANG, .IDENT, .LBRACE, .IDENT, .INCR, .RBRACE,
+     .ELSE, .LBRACE, .BREAK, .RBRACE, .FOR, .IDENT, .LBRACE, .PRINT, .LPAREN, .IDENT, .RPAREN, .RBRACE, .RETURN, .RBRACE] := by decide
+
+example : ∃ F, ∀ fuel, F ≤ fuel →
+    parseProgram (streamOf (progToks true false exFunc)) fuel = .ok { program := exFunc, errors := 0, cont := false } :=
+  roundtrip_streamOf true false exFunc (by decide)
 
 /-- … its rendering has the parentheses where the printer puts them: `a + b * (c - d) < -e` … -/
 example : (progToks false false [some exTree]).map (·.type) =
